@@ -788,3 +788,39 @@ mod tests {
         }
     }
 }
+
+/// Verification hooks (only compiled with `--cfg e57_verif`): direct access to the
+/// normalization and post-processing steps of the simple iterator.
+#[cfg(e57_verif)]
+pub(crate) mod verif_hooks {
+    use super::*;
+
+    /// Range chosen for a channel (0 intensity, 1 red, 2 green, 3 blue) applied to a value.
+    pub fn normalize(pc: &PointCloud, channel: u8, value: f64) -> Result<Option<f32>> {
+        let range = match channel {
+            0 => Range::intensity_from_pointcloud(pc)?,
+            1 => Range::red_from_pointcloud(pc)?,
+            2 => Range::green_from_pointcloud(pc)?,
+            _ => Range::blue_from_pointcloud(pc)?,
+        };
+        Ok(range.map(|r| r.normalize(value)))
+    }
+
+    /// The post-processing steps in the order of the iterator.
+    pub fn postprocess(p: &mut Point, s2c: bool, c2s: bool, i2c: bool, pose: Option<&PointCloud>) {
+        if s2c {
+            convert_to_cartesian(p);
+        }
+        if c2s {
+            convert_to_spherical(p);
+        }
+        if i2c {
+            convert_intensity(p);
+        }
+        if let Some(pc) = pose {
+            let (rotation, translation) =
+                PointCloudReaderSimple::<std::fs::File>::prepare_transform(pc);
+            transform_point(p, &rotation, &translation);
+        }
+    }
+}
